@@ -664,12 +664,17 @@ def run_function(ev, fnode, env, max_steps=200):
                 cur = ev.ev(ast.Attribute(value=s.target.value, attr=s.target.attr, ctx=ast.Load()) if isinstance(s.target, ast.Attribute)
                             else ast.Name(id=s.target.id, ctx=ast.Load()), env)
                 v = ev.ev(s.value, env)
-                if isinstance(s.op, ast.Add):
-                    nv = cur + v
-                elif isinstance(s.op, ast.Sub):
-                    nv = cur - v
-                else:
-                    raise Unsupported('augassign op')
+                try:
+                    if isinstance(s.op, ast.Add):
+                        nv = cur + v
+                    elif isinstance(s.op, ast.Sub):
+                        nv = cur - v
+                    else:
+                        raise Unsupported('augassign op')
+                except TypeError as e_:
+                    if cur is UNKNOWN or v is UNKNOWN:
+                        raise Unknown('operand of an augmented assignment')
+                    raise Crash(f'TypeError in `{src(s)}`: {e_}')
                 assign(s.target, nv, env)
             elif isinstance(s, ast.For) and isinstance(s.target, (ast.Name, ast.Tuple)):
                 it = ev.ev(s.iter, env)
